@@ -1,4 +1,4 @@
-"""Driver for C10: every registered generator x player counts x seeds, two identically seeded calls each."""
+"""Driver for C10: every registered generator x player counts x seeds, two identically seeded calls back to back and a third one later."""
 from __future__ import annotations
 
 import argparse
@@ -27,6 +27,7 @@ def main():
     seeds_per_n += [seeds_per_n[-1]] * (len(ns) - len(seeds_per_n))
     for n, nseeds in zip(ns, seeds_per_n):
         traces = []
+        deferred = []
         for name in names:
             for s in range(nseeds):
                 tid += 1
@@ -56,6 +57,7 @@ def main():
                     t["empty_zero"] = int(float(v1[0]) == 0.0)
                     t["float64"] = int(v1.dtype == np.float64)
                     t["same_bits"] = int(v1.tobytes() == v2.tobytes())
+                    deferred.append((t, name, seed, v1))
                 except D.DriverError:
                     t["exc"] = "UnloggableOutput"         # non-finite or absurdly large values returned by the generator
                     t["v"] = [0] * 2 ** n
@@ -65,6 +67,17 @@ def main():
                     t["v"] = [0] * 2 ** n
                     t["v2"] = [0] * 2 ** n
                 traces.append(t)
+        # a third identically seeded call once every other name and seed at this player count has intervened (in reverse order): state a
+        # generator keeps for the life of the process (memoised layouts, scratch vectors) must not leak from one call into the next
+        for t, name, seed, v1 in reversed(deferred):
+            try:
+                v3 = np.asarray(GENERATORS[name](n, np.random.default_rng(seed)).get_values())
+                if v1.tobytes() != v3.tobytes():
+                    t["same_bits"] = 0
+                    t["later_call_differs"] = 1
+            except Exception as ex:  # noqa: BLE001
+                if not t["exc"]:
+                    t["exc"] = "Later" + type(ex).__name__
         path = f"{a.out}_gen_n{n}.json"
         D.dump(path, {"traces": traces})
         files.append({"n": n, "path": path, "traces": len(traces), "events": 2 * len(traces),
